@@ -5,6 +5,6 @@ import "time"
 func init() {
 	registry = append(registry, property{id: "C04", parts: []part{
 		{name: "layouts", pkg: "./c04", run: "^TestLayouts$",
-			shards: [2]int{16, 16}, checks: [2]int{40, 700}, timeout: [2]time.Duration{15 * min, 45 * min}},
+			shards: [2]int{16, 16}, checks: [2]int{40, 700}, timeout: [2]time.Duration{15 * min, 90 * min}},
 	}})
 }
